@@ -40,18 +40,30 @@ structure Inner (α : Type) where
   hit : Nat              -- hitConvergenceLimit
   evals : List α         -- ghost
 
-/-- result: `(x, delta)` of the Go function + ghosts -/
+/-- ghost: which `return` of the Go function was taken -/
+inductive Exit where
+  | fuel   -- the `for iteration` loop ran out (final `return`)
+  | tol    -- `math.Abs(trialDelta) < tolerance`
+  | conv   -- `hitConvergenceLimit == len(trialXs)`
+  deriving DecidableEq, Repr
+
+def Exit.name : Exit → String
+  | .fuel => "fuel" | .tol => "tol" | .conv => "conv"
+
+/-- result: `(x, delta)` of the Go function + ghosts (`b` = the bracket on exit) -/
 structure Res (α : Type) where
   x : α
   delta : α
   evals : List α
   devals : List α
+  b : Bracket α
+  exit : Exit
 
-/-- one trial; `.inl (x, delta, evals)` = early `return` -/
-def trialStep {α} [Num α] (f : α → α) (tol conv x : α) (s : Inner α) (trial : α) : (α × α × List α) ⊕ Inner α :=
+/-- one trial; `.inl (x, delta, state)` = early `return` -/
+def trialStep {α} [Num α] (f : α → α) (tol conv x : α) (s : Inner α) (trial : α) : (α × α × Inner α) ⊕ Inner α :=
   let hit := if Num.abs (x - trial) < conv then s.hit + 1 else s.hit
   let trialDelta := f trial
-  if Num.abs trialDelta < tol then .inl (trial, trialDelta, trial :: s.evals)
+  if Num.abs trialDelta < tol then .inl (trial, trialDelta, { s with evals := trial :: s.evals })
   else
     let b := s.b
     let b' : Bracket α :=
@@ -61,7 +73,7 @@ def trialStep {α} [Num α] (f : α → α) (tol conv x : α) (s : Inner α) (tr
         (if trial < b.maxX ∧ b.minX ≤ trial then { b with maxX := trial, maxDelta := trialDelta } else b)
     .inr { b := b', hit := hit, evals := trial :: s.evals }
 
-def trialLoop {α} [Num α] (f : α → α) (tol conv x : α) : Inner α → List α → (α × α × List α) ⊕ Inner α
+def trialLoop {α} [Num α] (f : α → α) (tol conv x : α) : Inner α → List α → (α × α × Inner α) ⊕ Inner α
   | s, [] => .inr s
   | s, t :: ts =>
     match trialStep f tol conv x s t with
@@ -75,17 +87,16 @@ def pick {α} [Num α] (nb : Bracket α) : α × α :=
 /-- the `for iteration` loop -/
 def iterate {α} [Num α] (f : α → α) (f' : Option (α → α)) (tol conv : α) :
     Nat → α → α → Bracket α → List α → List α → Res α
-  | 0, x, delta, _, ev, dev => ⟨x, delta, ev, dev⟩
+  | 0, x, delta, b, ev, dev => ⟨x, delta, ev, dev, b, .fuel⟩
   | fuel + 1, x, delta, b, ev, dev =>
     let ts := trialXs f' x delta b
     let dev' := if f'.isSome then x :: dev else dev
     match trialLoop f tol conv x { b := b, hit := 0, evals := ev } ts with
-    | .inl (rx, rd, ev') => ⟨rx, rd, ev', dev'⟩
+    | .inl (rx, rd, s) => ⟨rx, rd, s.evals, dev', s.b, .tol⟩
     | .inr s =>
-      let nb := s.b
-      let p := pick nb
-      if s.hit == ts.length then ⟨p.1, p.2, s.evals, dev'⟩
-      else iterate f f' tol conv fuel p.1 p.2 nb s.evals dev'
+      let p := pick s.b
+      if s.hit == ts.length then ⟨p.1, p.2, s.evals, dev', s.b, .conv⟩
+      else iterate f f' tol conv fuel p.1 p.2 s.b s.evals dev'
 
 /-- `FindRoot(fn, fn_dx, initialX, minX, maxX, tolerance, convergenceLimit, maxIterations)`;
 `.error` = `panic("Invalid range")`. Evaluation order of the prologue: `fn(initialX)`, `fn(maxX)`, `fn(minX)`. -/
